@@ -104,6 +104,7 @@ fn program(vs: &[Voice], broken: Option<&str>) -> String {
     let body = vs.iter().map(|v| v.expr()).collect::<Vec<_>>().join(", ");
     let ret = format!("({})", vec!["float"; vs.len()].join(","));
     match broken {
+        None if vs.len() == 1 => format!("{LIB}fn dsp() -> float {{\n  {body}\n}}\n"),
         None => format!("{LIB}fn dsp() -> {ret} {{\n  ({body})\n}}\n"),
         Some("syntax") => format!("{LIB}fn dsp() -> {ret} {{\n  ({body}\n}}\n"),
         Some(_) => format!("{LIB}fn dsp() -> {ret} {{\n  ({body}, v_cnt((1.0, 2.0)) + \"s\")\n}}\n"),
@@ -124,7 +125,8 @@ const CONSTS: [&str; 5] = ["0.5", "1.0", "0.25", "2.0", "0.125"];
 
 fn history(g: &mut Gen) -> (Vec<Step>, Vec<String>) {
     let mut labels = vec![];
-    let k = g.int(2, 4) as usize;
+    // 1 voice as well: an edit may then leave no surviving call site at all
+    let k = g.int(1, 4) as usize;
     let perm = g.perm(KINDS.len());
     let mut vs: Vec<Voice> = perm.iter().take(k).map(|kind| Voice::new(*kind, *g.pick(&CONSTS[..]))).collect();
     let mut steps = vec![];
@@ -147,7 +149,7 @@ fn history(g: &mut Gen) -> (Vec<Step>, Vec<String>) {
         // choose the next edit
         let present: Vec<usize> = vs.iter().map(|v| v.kind).collect();
         let absent: Vec<usize> = (0..KINDS.len()).filter(|k| !present.contains(k)).collect();
-        let choice = g.weighted(&[if vs.len() < 4 && !absent.is_empty() { 3 } else { 0 }, if vs.len() > 2 { 3 } else { 0 }, if absent.is_empty() { 0 } else { 3 }, 2, 2, 2]);
+        let choice = g.weighted(&[if vs.len() < 4 && !absent.is_empty() { 3 } else { 0 }, if vs.len() > 1 { 3 } else { 0 }, if absent.is_empty() { 0 } else { 3 }, 2, 2, 2, if absent.len() >= vs.len() { 2 } else { 0 }]);
         fault = false;
         match choice {
             0 => {
@@ -177,6 +179,15 @@ fn history(g: &mut Gen) -> (Vec<Step>, Vec<String>) {
                 vs[pos].c = c.parse().unwrap();
                 edit = "constant".into();
                 labels.push("edit:constant".to_string());
+            }
+            6 => {
+                // every voice replaced at once: no stateful call site survives the edit
+                let pick = g.perm(absent.len());
+                for (i, v) in vs.iter_mut().enumerate() {
+                    *v = Voice::new(absent[pick[i]], *g.pick(&CONSTS[..]));
+                }
+                edit = "replace-all".into();
+                labels.push("edit:replace-all".to_string());
             }
             4 => {
                 let pos = g.usize_below(vs.len());
@@ -226,6 +237,16 @@ fn check(steps: &[Step], backend: &str, tolerate_channels: bool, tolerated: &mut
                 if !st.fault && !swapped.get(k).copied().unwrap_or(true) {
                     o.fail = Some((format!("c07:{backend}:valid-edit-rejected"), format!("step {k}: the edited program ({}) did not compile", st.edit)));
                     return o;
+                }
+                // known finding (stale I/O information on WASM): the host keeps reading dsp's result the
+                // way the first program returned it; a step whose program returns a scalar where the
+                // first returned a tuple (or the reverse) cannot be read at all
+                let first_scalar = steps[0].expect.first().map(|w| w.len() == 1).unwrap_or(false);
+                let this_scalar = st.expect.first().map(|w| w.len() == 1).unwrap_or(false);
+                if backend == "wasm" && tolerate_channels && first_scalar != this_scalar {
+                    *tolerated += st.expect.len() as u64;
+                    t += st.expect.len() as u64;
+                    continue;
                 }
                 for (i, (want, have)) in st.expect.iter().zip(g.iter()).enumerate() {
                     if want.len() != have.len() && backend == "wasm" && tolerate_channels {
@@ -346,6 +367,6 @@ impl Prop for C07 {
         "fault_enumeration"
     }
     fn required_classes(&self, _tier: Tier) -> Vec<&'static str> {
-        vec!["edit:insert", "edit:delete", "edit:replace", "edit:constant", "edit:nest", "edit:fault", "backend:vm", "backend:wasm"]
+        vec!["edit:insert", "edit:delete", "edit:replace", "edit:replace-all", "edit:constant", "edit:nest", "edit:fault", "backend:vm", "backend:wasm"]
     }
 }
